@@ -14,7 +14,7 @@ GORACE = "halt_on_error=0 atexit_sleep_ms=0 history_size=3"
 # ---------------------------------------------------------------- builds
 def build_guard(race=False, timeout=900):
     """vh-race with -tags verif,c13guard: compiles only when the repository under test carries the
-    verifGuard hooks (fixes/hook-c13-guard-probes.diff).  Returns the binary path or None (hooks
+    verifGuard hooks (fixes/hook-c13-guard-probes.addonly.diff).  Returns the binary path or None (hooks
     absent - the probes are then 'not available', never an error).  Mirrors harness.build
     (VERIF_REPO -> alternative modfile)."""
     os.makedirs(harness.BIN, exist_ok=True)
